@@ -297,4 +297,49 @@ Proof.
     split; [lia|split; [lia|split; [exact H2|exact H1]]].
 Qed.
 
+
+(* ---------- iteration orders ---------- *)
+Lemma sequence_some {A} (l : list (option A)) x : sequence l = Some x -> l = map Some x.
+Proof.
+  revert x; induction l as [|o l IH]; intros x H; cbn in H; [now injection H as <-|].
+  destruct o; [|discriminate]. destruct (sequence l); [|discriminate]. injection H as <-.
+  cbn. now rewrite (IH _ eq_refl).
+Qed.
+
+Lemma map_nth_error_seq {A} (l : list A) : map (nth_error l) (seq 0 (length l)) = map Some l.
+Proof.
+  induction l as [|x l IH]; [reflexivity|]. cbn [length seq map nth_error]. f_equal.
+  rewrite <- seq_shift, map_map. exact IH.
+Qed.
+
+Lemma elements_of_rows m : rect m -> obs_elements (of_rows m) = map Some (concat m).
+Proof.
+  intros Hr. pose proof (rect_forall m Hr) as Hall. unfold obs_elements.
+  change (m_rows (of_rows m)) with (nlen m). change (m_cols (of_rows m)) with (N.of_nat (ncols m)).
+  unfold pairs, nlen. rewrite !nrange_of_nat, map_list_prod. cbn [fst snd]. rewrite map_map.
+  rewrite (map_ext_in _ (fun i => map Some (nth i m []))).
+  - rewrite (map_nth_seq (map Some) [] m). now rewrite concat_map.
+  - intros i Hi. apply in_seq in Hi. rewrite map_map.
+    rewrite (map_ext_in _ (nth_error (nth i m []))).
+    + rewrite Forall_forall in Hall. rewrite <- (Hall (nth i m [])) by (apply nth_In; lia).
+      apply map_nth_error_seq.
+    + intros j Hj. apply in_seq in Hj. apply mget_of_rows; auto; lia.
+Qed.
+
+Lemma column_major_of_rows m : rect m ->
+  obs_column_major (of_rows m) = map Some (concat (spec_transpose m)).
+Proof. intros Hr. apply sequence_some. exact (transpose_data m Hr). Qed.
+
+(* reading all cells in row-major order lists the rows one after the other; in column-major
+   order it lists the columns one after the other *)
+Theorem iteration_orders (s : matrix T) : Inv s ->
+  obs_elements s = map Some (concat (abs s)) /\
+  obs_column_major s = map Some (concat (spec_transpose (abs s))) /\
+  m_data s = concat (abs s).
+Proof.
+  intros Hinv. destruct (abs_of_inv s Hinv) as [Hr Hs].
+  pose proof (elements_of_rows _ Hr) as H1. pose proof (column_major_of_rows _ Hr) as H2.
+  rewrite Hs in H1, H2. repeat split; auto. rewrite <- Hs at 1. reflexivity.
+Qed.
+
 End History.
